@@ -4,6 +4,7 @@ import (
 	"fmt"
 	"go/token"
 	"go/types"
+	"regexp"
 	"strings"
 
 	"golang.org/x/tools/go/ssa"
@@ -332,7 +333,23 @@ func (b *Body) havocLoopWrites(lp *Loop, st State) {
 func (b *Body) loopKeyMatches(lp *Loop, key string) bool {
 	key = strings.TrimSpace(key)
 	if strings.HasPrefix(key, "range(") {
-		return lp.RangeOf != "" && strings.TrimSuffix(strings.TrimPrefix(key, "range("), ")") == lp.RangeOf
+		want := strings.TrimSuffix(strings.TrimPrefix(key, "range("), ")")
+		if lp.RangeOf == "" {
+			return false
+		}
+		if want == lp.RangeOf {
+			return true
+		}
+		// the ranged operand mentions a parameter that was renamed since the unchanged tree
+		if old := b.ft.e.oldParams(b.ft.fn.String()); old != nil {
+			for i, p := range b.ft.fn.Params {
+				if i < len(old) && old[i] != "" && old[i] != p.Name() {
+					want = regexp.MustCompile(`\b`+regexp.QuoteMeta(old[i])+`\b`).ReplaceAllString(want, p.Name())
+				}
+			}
+			return want == lp.RangeOf
+		}
+		return false
 	}
 	return key == fmt.Sprint(lp.Ordinal)
 }
